@@ -1,7 +1,486 @@
-//! `ext.*` and `impl.ext.*` operations (stub; filled in by the owner of this family).
-#![allow(unused_imports, dead_code)]
+//! `ext.*` operations: the extension header chain walkers of `Ipv6Extensions` / `Ipv4Extensions`
+//! and the ether type bookkeeping of `IpHeaders` / `NetHeaders` (property C12).
+//!
+//! Textual value `<exts>`: six comma separated slots
+//!   hop-by-hop , destination options , routing , final destination options , fragment , auth
+//! each `-` or `nh:payloadhex` (raw), `nh:offset:more:id` (fragment), `nh:spi:seq:icvhex` (auth).
 use crate::util::*;
+use etherparse::*;
 
-pub fn run(_op: &str, _a: &[&str]) -> Option<String> {
-    None
+fn parse_raw(s: &str) -> Option<Option<Ipv6RawExtHeader>> {
+    if s == "-" {
+        return Some(None);
+    }
+    let p: Vec<&str> = s.split(':').collect();
+    if p.len() != 2 {
+        return None;
+    }
+    let nh: u8 = num(p[0])?;
+    let pl = hex(p[1])?;
+    Some(Some(Ipv6RawExtHeader::new_raw(IpNumber(nh), &pl).ok()?))
+}
+
+fn parse_frag(s: &str) -> Option<Option<Ipv6FragmentHeader>> {
+    if s == "-" {
+        return Some(None);
+    }
+    let p: Vec<&str> = s.split(':').collect();
+    if p.len() != 4 {
+        return None;
+    }
+    let nh: u8 = num(p[0])?;
+    let off: u16 = num(p[1])?;
+    let more = match p[2] {
+        "0" => false,
+        "1" => true,
+        _ => return None,
+    };
+    let id: u32 = num(p[3])?;
+    Some(Some(Ipv6FragmentHeader::new(
+        IpNumber(nh),
+        IpFragOffset::try_new(off).ok()?,
+        more,
+        id,
+    )))
+}
+
+fn parse_auth(s: &str) -> Option<Option<IpAuthHeader>> {
+    if s == "-" {
+        return Some(None);
+    }
+    let p: Vec<&str> = s.split(':').collect();
+    if p.len() != 4 {
+        return None;
+    }
+    let nh: u8 = num(p[0])?;
+    let spi: u32 = num(p[1])?;
+    let seq: u32 = num(p[2])?;
+    let icv = hex(p[3])?;
+    Some(Some(IpAuthHeader::new(IpNumber(nh), spi, seq, &icv).ok()?))
+}
+
+fn parse_exts(s: &str) -> Option<Ipv6Extensions> {
+    let p: Vec<&str> = s.split(',').collect();
+    if p.len() != 6 {
+        return None;
+    }
+    let hop = parse_raw(p[0])?;
+    let dest = parse_raw(p[1])?;
+    let route = parse_raw(p[2])?;
+    let fin = parse_raw(p[3])?;
+    let frag = parse_frag(p[4])?;
+    let auth = parse_auth(p[5])?;
+    let routing = match (route, fin) {
+        (Some(r), f) => Some(Ipv6RoutingExtensions {
+            routing: r,
+            final_destination_options: f,
+        }),
+        (None, None) => None,
+        (None, Some(_)) => return None,
+    };
+    Some(Ipv6Extensions {
+        hop_by_hop_options: hop,
+        destination_options: dest,
+        routing,
+        fragment: frag,
+        auth,
+    })
+}
+
+fn show_raw(h: Option<&Ipv6RawExtHeader>) -> String {
+    match h {
+        None => "-".to_string(),
+        Some(h) => format!("{}:{}", h.next_header.0, to_hex(h.payload())),
+    }
+}
+
+fn show_frag(h: Option<&Ipv6FragmentHeader>) -> String {
+    match h {
+        None => "-".to_string(),
+        Some(h) => format!(
+            "{}:{}:{}:{}",
+            h.next_header.0,
+            h.fragment_offset.value(),
+            if h.more_fragments { 1 } else { 0 },
+            h.identification
+        ),
+    }
+}
+
+fn show_auth(h: Option<&IpAuthHeader>) -> String {
+    match h {
+        None => "-".to_string(),
+        Some(h) => format!(
+            "{}:{}:{}:{}",
+            h.next_header.0,
+            h.spi,
+            h.sequence_number,
+            to_hex(h.raw_icv())
+        ),
+    }
+}
+
+fn show_exts(e: &Ipv6Extensions) -> String {
+    format!(
+        "{},{},{},{},{},{}",
+        show_raw(e.hop_by_hop_options.as_ref()),
+        show_raw(e.destination_options.as_ref()),
+        show_raw(e.routing.as_ref().map(|r| &r.routing)),
+        show_raw(
+            e.routing
+                .as_ref()
+                .and_then(|r| r.final_destination_options.as_ref())
+        ),
+        show_frag(e.fragment.as_ref()),
+        show_auth(e.auth.as_ref())
+    )
+}
+
+fn show_walk6(e: &err::ipv6_exts::ExtsWalkError) -> String {
+    use err::ipv6_exts::ExtsWalkError::*;
+    match e {
+        HopByHopNotAtStart => "HopByHopNotAtStart".to_string(),
+        ExtNotReferenced { missing_ext } => format!("ExtNotReferenced({})", missing_ext.0),
+    }
+}
+
+fn show_walk4(e: &err::ipv4_exts::ExtsWalkError) -> String {
+    use err::ipv4_exts::ExtsWalkError::*;
+    match e {
+        ExtNotReferenced { missing_ext } => format!("ExtNotReferenced({})", missing_ext.0),
+    }
+}
+
+fn show_len(e: &err::LenError) -> String {
+    format!(
+        "len(req={},len={},src={:?},layer={:?},off={})",
+        e.required_len, e.len, e.len_source, e.layer, e.layer_start_offset
+    )
+}
+
+fn ipv4_hdr() -> Ipv4Header {
+    let mut h: Ipv4Header = Default::default();
+    h.protocol = IpNumber(255);
+    h
+}
+
+fn ipv6_hdr() -> Ipv6Header {
+    let mut h: Ipv6Header = Default::default();
+    h.next_header = IpNumber(255);
+    h
+}
+
+fn write6(e: &Ipv6Extensions, first: u8) -> String {
+    let mut out: Vec<u8> = Vec::new();
+    match e.write(&mut out, IpNumber(first)) {
+        Ok(()) => format!("ok({})", to_hex(&out)),
+        Err(err::ipv6_exts::HeaderWriteError::Content(err)) => {
+            format!("err({},written={})", show_walk6(&err), to_hex(&out))
+        }
+        Err(err::ipv6_exts::HeaderWriteError::Io(err)) => format!("io({:?})", err.kind()),
+    }
+}
+
+fn write4(e: &Ipv4Extensions, first: u8) -> String {
+    let mut out: Vec<u8> = Vec::new();
+    match e.write(&mut out, IpNumber(first)) {
+        Ok(()) => format!("ok({})", to_hex(&out)),
+        Err(err::ipv4_exts::HeaderWriteError::Content(err)) => {
+            format!("err({},written={})", show_walk4(&err), to_hex(&out))
+        }
+        Err(err::ipv4_exts::HeaderWriteError::Io(err)) => format!("io({:?})", err.kind()),
+    }
+}
+
+fn from_slice6(first: u8, b: &[u8]) -> String {
+    match Ipv6Extensions::from_slice(IpNumber(first), b) {
+        Ok((e, next, rest)) => format!(
+            "ok({},next={},rest={},header_len={})",
+            show_exts(&e),
+            next.0,
+            win(b, rest),
+            e.header_len()
+        ),
+        Err(err) => {
+            use err::ipv6_exts::{HeaderError as H, HeaderSliceError as S};
+            match err {
+                S::Len(l) => format!("err({})", show_len(&l)),
+                S::Content(H::HopByHopNotAtStart) => "err(content(HopByHopNotAtStart))".to_string(),
+                S::Content(H::IpAuth(a)) => format!("err(content(IpAuth({:?})))", a),
+            }
+        }
+    }
+}
+
+fn from_slice4(first: u8, b: &[u8]) -> String {
+    match Ipv4Extensions::from_slice(IpNumber(first), b) {
+        Ok((e, next, rest)) => format!(
+            "ok({},next={},rest={},header_len={})",
+            show_auth(e.auth.as_ref()),
+            next.0,
+            win(b, rest),
+            e.header_len()
+        ),
+        Err(err) => {
+            use err::ip_auth::HeaderSliceError as S;
+            match err {
+                S::Len(l) => format!("err({})", show_len(&l)),
+                S::Content(c) => format!("err(content({:?}))", c),
+            }
+        }
+    }
+}
+
+pub fn run(op: &str, a: &[&str]) -> Option<String> {
+    Some(match (op, a) {
+        ("ext.set_next", [e, n]) => {
+            let mut e = parse_exts(e)?;
+            let n: u8 = num(n)?;
+            let first = e.set_next_headers(IpNumber(n));
+            format!("first={} {}", first.0, show_exts(&e))
+        }
+        ("ext.next_header", [e, first]) => {
+            let e = parse_exts(e)?;
+            let first: u8 = num(first)?;
+            match e.next_header(IpNumber(first)) {
+                Ok(n) => format!("ok({})", n.0),
+                Err(err) => format!("err({})", show_walk6(&err)),
+            }
+        }
+        ("ext.write", [e, first]) => {
+            let e = parse_exts(e)?;
+            let first: u8 = num(first)?;
+            write6(&e, first)
+        }
+        ("ext.header_len", [e]) => parse_exts(e)?.header_len().to_string(),
+        ("ext.is_frag", [e]) => parse_exts(e)?.is_fragmenting_payload().to_string(),
+        ("ext.from_slice", [first, h]) => {
+            let first: u8 = num(first)?;
+            let b = hex(h)?;
+            from_slice6(first, &b)
+        }
+        ("ext.from_slice_lax", [first, h]) => {
+            let first: u8 = num(first)?;
+            let b = hex(h)?;
+            let (e, next, rest, err) = Ipv6Extensions::from_slice_lax(IpNumber(first), &b);
+            let es = match err {
+                None => "none".to_string(),
+                Some((err, layer)) => {
+                    use err::ipv6_exts::{HeaderError as H, HeaderSliceError as S};
+                    let s = match err {
+                        S::Len(l) => show_len(&l),
+                        S::Content(H::HopByHopNotAtStart) => {
+                            "content(HopByHopNotAtStart)".to_string()
+                        }
+                        S::Content(H::IpAuth(a)) => format!("content(IpAuth({:?}))", a),
+                    };
+                    format!("some({},{:?})", s, layer)
+                }
+            };
+            format!(
+                "({},next={},rest={},header_len={},err={})",
+                show_exts(&e),
+                next.0,
+                win(&b, rest),
+                e.header_len(),
+                es
+            )
+        }
+        ("ext.roundtrip", [e, first, tail]) => {
+            let e = parse_exts(e)?;
+            let first: u8 = num(first)?;
+            let tail = hex(tail)?;
+            let mut out: Vec<u8> = Vec::new();
+            match e.write(&mut out, IpNumber(first)) {
+                Ok(()) => {
+                    out.extend_from_slice(&tail);
+                    from_slice6(first, &out)
+                }
+                Err(_) => "none".to_string(),
+            }
+        }
+        ("ext.link_walk", [e, n]) => {
+            let mut e = parse_exts(e)?;
+            let n: u8 = num(n)?;
+            let first = e.set_next_headers(IpNumber(n));
+            let walk = match e.next_header(first) {
+                Ok(n) => format!("ok({})", n.0),
+                Err(err) => format!("err({})", show_walk6(&err)),
+            };
+            format!(
+                "first={} {} walk={} write={}",
+                first.0,
+                show_exts(&e),
+                walk,
+                write6(&e, first.0)
+            )
+        }
+        ("ext.v4.roundtrip", [x, first, tail]) => {
+            let e = Ipv4Extensions {
+                auth: parse_auth(x)?,
+            };
+            let first: u8 = num(first)?;
+            let tail = hex(tail)?;
+            let mut out: Vec<u8> = Vec::new();
+            match e.write(&mut out, IpNumber(first)) {
+                Ok(()) => {
+                    out.extend_from_slice(&tail);
+                    from_slice4(first, &out)
+                }
+                Err(_) => "none".to_string(),
+            }
+        }
+        ("ext.v4.link_walk", [x, n]) => {
+            let mut e = Ipv4Extensions {
+                auth: parse_auth(x)?,
+            };
+            let n: u8 = num(n)?;
+            let first = e.set_next_headers(IpNumber(n));
+            let walk = match e.next_header(first) {
+                Ok(n) => format!("ok({})", n.0),
+                Err(err) => format!("err({})", show_walk4(&err)),
+            };
+            format!(
+                "first={} {} walk={} write={}",
+                first.0,
+                show_auth(e.auth.as_ref()),
+                walk,
+                write4(&e, first.0)
+            )
+        }
+        ("ext.v4.set_next", [x, n]) => {
+            let mut e = Ipv4Extensions {
+                auth: parse_auth(x)?,
+            };
+            let n: u8 = num(n)?;
+            let first = e.set_next_headers(IpNumber(n));
+            format!("first={} {}", first.0, show_auth(e.auth.as_ref()))
+        }
+        ("ext.v4.next_header", [x, first]) => {
+            let e = Ipv4Extensions {
+                auth: parse_auth(x)?,
+            };
+            let first: u8 = num(first)?;
+            match e.next_header(IpNumber(first)) {
+                Ok(n) => format!("ok({})", n.0),
+                Err(err) => format!("err({})", show_walk4(&err)),
+            }
+        }
+        ("ext.v4.write", [x, first]) => {
+            let e = Ipv4Extensions {
+                auth: parse_auth(x)?,
+            };
+            let first: u8 = num(first)?;
+            write4(&e, first)
+        }
+        ("ext.v4.header_len", [x]) => Ipv4Extensions {
+            auth: parse_auth(x)?,
+        }
+        .header_len()
+        .to_string(),
+        ("ext.v4.from_slice", [first, h]) => {
+            let first: u8 = num(first)?;
+            let b = hex(h)?;
+            from_slice4(first, &b)
+        }
+        ("ext.ip_set_next", [v, e, n]) => {
+            let n: u8 = num(n)?;
+            let mut h = match *v {
+                "v4" => IpHeaders::Ipv4(
+                    ipv4_hdr(),
+                    Ipv4Extensions {
+                        auth: parse_auth(e)?,
+                    },
+                ),
+                "v6" => IpHeaders::Ipv6(ipv6_hdr(), parse_exts(e)?),
+                _ => return None,
+            };
+            let et = h.set_next_headers(IpNumber(n));
+            match &h {
+                IpHeaders::Ipv4(h, x) => format!(
+                    "ether={} first={} {}",
+                    et.0,
+                    h.protocol.0,
+                    show_auth(x.auth.as_ref())
+                ),
+                IpHeaders::Ipv6(h, x) => {
+                    format!("ether={} first={} {}", et.0, h.next_header.0, show_exts(x))
+                }
+            }
+        }
+        ("ext.net_set_next", [v, e, n]) => {
+            let n: u8 = num(n)?;
+            let mut h = match *v {
+                "v4" => NetHeaders::Ipv4(
+                    ipv4_hdr(),
+                    Ipv4Extensions {
+                        auth: parse_auth(e)?,
+                    },
+                ),
+                "v6" => NetHeaders::Ipv6(ipv6_hdr(), parse_exts(e)?),
+                "arp" if *e == "-" => NetHeaders::Arp(
+                    ArpPacket::new(
+                        ArpHardwareId::ETHERNET,
+                        EtherType::IPV4,
+                        ArpOperation::REPLY,
+                        &[0; 6],
+                        &[0; 4],
+                        &[0; 6],
+                        &[0; 4],
+                    )
+                    .ok()?,
+                ),
+                _ => return None,
+            };
+            match h.try_set_next_headers(IpNumber(n)) {
+                Err(err) => format!("err({:?})", err),
+                Ok(et) => match &h {
+                    NetHeaders::Ipv4(h, x) => format!(
+                        "ok(ether={}) first={} {}",
+                        et.0,
+                        h.protocol.0,
+                        show_auth(x.auth.as_ref())
+                    ),
+                    NetHeaders::Ipv6(h, x) => format!(
+                        "ok(ether={}) first={} {}",
+                        et.0,
+                        h.next_header.0,
+                        show_exts(x)
+                    ),
+                    NetHeaders::Arp(_) => format!("ok(ether={}) arp", et.0),
+                },
+            }
+        }
+        ("ext.ip_next_header", [v, e, first]) => {
+            let first: u8 = num(first)?;
+            let h = match *v {
+                "v4" => {
+                    let mut h = ipv4_hdr();
+                    h.protocol = IpNumber(first);
+                    IpHeaders::Ipv4(
+                        h,
+                        Ipv4Extensions {
+                            auth: parse_auth(e)?,
+                        },
+                    )
+                }
+                "v6" => {
+                    let mut h = ipv6_hdr();
+                    h.next_header = IpNumber(first);
+                    IpHeaders::Ipv6(h, parse_exts(e)?)
+                }
+                _ => return None,
+            };
+            match h.next_header() {
+                Ok(n) => format!("ok({})", n.0),
+                Err(err::ip_exts::ExtsWalkError::Ipv4Exts(e)) => {
+                    format!("err(Ipv4Exts({}))", show_walk4(&e))
+                }
+                Err(err::ip_exts::ExtsWalkError::Ipv6Exts(e)) => {
+                    format!("err(Ipv6Exts({}))", show_walk6(&e))
+                }
+            }
+        }
+        _ => return None,
+    })
 }
